@@ -91,12 +91,16 @@ def execute(scn: dict, prop: str, aspects, on_step=None, send_strict=(1,), keep=
                     disc = model.check_send(tuple(op[1]), op[2] if len(op) > 2 else True, obs, strict_cmds=send_strict)
                 elif kind == "relisten":
                     w.relisten()
+                elif kind == "diskfault":
+                    if w.disk is not None:
+                        w.disk.fault_on.setdefault(op[1], []).extend(op[2])
+                        w.log("harness", "diskfault", op[1], tuple(op[2]))
                 elif kind == "reenter":
                     # same Gateway object, new session: nothing the properties talk about may be forgotten
                     if cfg.get("link", "sim") == "sim":
                         err = w.reenter()
                         res.probes["context_reentered"] += 1
-                        if err:
+                        if err and not (w.disk is not None and err in ("PersistenceWriteError", "PersistenceReadError")):
                             disc.append(("outcome", f"reenter-raised:{err}", str(op)))
                 elif kind == "reboot":
                     n = op[1]
